@@ -5,7 +5,7 @@ struct EqualAlg { static constexpr bool needs_compat = true;
     template <class S, class D> std::string operator()(S const& s, D const& d) const { return gil::equal_pixels(s, d) ? " r=1" : " r=0"; } };
 int main() {
     return hv::run([](std::string const& line) -> std::string {
-        auto a = hv::words(line);
+        auto a = op_words(line);
         if (!a.empty() && a[0] == "equal") return run_bin_line<L7>(EqualAlg(), a);
         return "bad-op";
     });
